@@ -363,6 +363,7 @@ Definition last_update (s : state) (b : Z) : option update :=
                             end else acc) (updates s) None.
 
 Definition do_create_update (s : state) (b user token n_jobs n_groups : Z) : state * res :=
+  if (n_jobs <? 0) || (n_groups <? 0) then (s, bad_request) else      (* validate_batch_update *)
   if negb ((0 <? n_jobs) || (0 <? n_groups)) then (s, assertion) else
   (* the existing update is looked up for the batch's owner only (JOIN batches ... AND batches.user = %s) *)
   match (if match find_batch s b with Some bt => b_user bt =? user | None => false end
@@ -404,6 +405,7 @@ Definition create_one_group (b u sg : Z) (acc : option state) (gs : gspec) : opt
   end.
 
 Definition do_create_groups (s : state) (b u user : Z) (gss : list gspec) : state * res :=
+  if is_nil gss then (s, assertion) else                                 (* assert len(job_group_specs) > 0 *)
   match find_update s b u, find_batch s b with
   | Some up, Some bt =>
       if negb (b_user bt =? user) || b_deleted bt then (s, not_found)
@@ -474,6 +476,7 @@ Fixpoint contiguous (l : list Z) : bool :=
   end.
 
 Definition do_create_jobs (s : state) (b u user : Z) (jss : list jspec) : state * res :=
+  if is_nil jss then (s, assertion) else                                 (* assert len(job_specs) > 0 *)
   match find_update s b u, find_batch s b with
   | Some up, Some bt =>
       if negb (b_user bt =? user) || b_deleted bt then (s, not_found)
